@@ -64,6 +64,11 @@ func main() {
 				wg.Add(1)
 				go func(i int) {
 					defer wg.Done()
+					defer func() {
+						if p := recover(); p != nil {
+							fmt.Printf("MISMATCH %s rep %d %s (%s): panic escaped to the caller: %v\n", kind, rep, objs.Tag(i), paradigm[i], p)
+						}
+					}()
 					<-start
 					shared.Call(recs[i], paradigm[i])
 				}(i)
